@@ -18,7 +18,7 @@ ASSUMPTIONS = ["a connection is 'being served' from accept until handleConnectio
                "the counter read by the accessor is the one printed in the STATS|currentConnections= log line"]
 
 KINDS = ["key_shell", "key_shell", "key_nochan", "key_chan", "key_2shell", "key_shell_twice", "health", "health_nochan", "badpw", "tcp_only", "tcp_reset",
-         "key_exec", "key_pty", "key_env", "key_subsystem", "key_direct"]
+         "key_exec", "key_pty", "key_env", "key_subsystem", "key_direct", "key_nouser", "key_osuser"]
 
 
 def gen_history(rng, mx):
@@ -97,7 +97,7 @@ def run_impl(cases, tier):
 PROTO = {"key_nochan": "[SAuthOk]", "health_nochan": "[SAuthOk]", "key_chan": "[SAuthOk; SChan true]",
          "key_shell": "[SAuthOk; SChan true; SReq true]", "health": "[SAuthOk; SChan true; SReq true]",
          "key_2shell": "[SAuthOk; SChan true; SReq true; SChan true; SReq true]", "key_shell_twice": "[SAuthOk; SChan true; SReq true; SReq true]",
-         "badpw": "[SAuthFail]", "tcp_only": "[]", "tcp_reset": "[SClientClose]", "key_direct": "[SAuthOk; SChan false]",
+         "badpw": "[SAuthFail]", "key_nouser": "[SAuthFail]", "key_osuser": "[SAuthFail]", "tcp_only": "[]", "tcp_reset": "[SClientClose]", "key_direct": "[SAuthOk; SChan false]",
          "key_exec": "[SAuthOk; SChan true; SReq false]", "key_pty": "[SAuthOk; SChan true; SReq false]",
          "key_env": "[SAuthOk; SChan true; SReq false]", "key_subsystem": "[SAuthOk; SChan true; SReq false]"}
 AUTH_OK = {"key_shell", "key_nochan", "key_chan", "key_2shell", "key_shell_twice", "health", "health_nochan", "tcp_only", "key_direct"}
